@@ -15,6 +15,7 @@ PAIRS = {
     'identical': ('CNOF', geo.PATTERNS['chiral4'][1], 'CNOF', geo.PATTERNS['chiral4'][1]),
     'single-swap': ('N', [[0., 0, 0]], 'P', [[0., 0, 0]]),
     'sym-grow': ('OCO', geo.PATTERNS['sym3'][1], 'OCOS', geo.PATTERNS['sym3'][1] + [[0.0, 1.5, 0.0]]),
+    'grow-planar': ('CNO', geo.PATTERNS['planar3'][1], 'CNOSP', geo.PATTERNS['planar3'][1] + [[1.6, 1.5, 1.3], [2.4, 2.3, 2.1]]),
     'collinear-swap': ('CNO', geo.PATTERNS['collinear3'][1], 'CNS', geo.PATTERNS['collinear3'][1][:2] + [[2.5, 0.0, 0.0]]),
 }
 
